@@ -554,10 +554,22 @@ func (h *handler1) handleConnect(ctx context.Context, snConnect *snPkts1.Connect
 		return h.snSend(reply)
 	}
 
-	if h.state.Get() == util.StateAwake {
+	// A sleeping client returns to the active state. It is still connected to
+	// the MQTT broker: another MQTT CONNECT would be a protocol violation.
+	// See MQTT-SN specification v. 1.2, chapter 6.14
+	if state := h.state.Get(); state == util.StateAwake || state == util.StateAsleep {
 		h.setState(util.StateActive)
 		reply := snPkts1.NewConnack(snPkts1.RC_ACCEPTED)
-		return h.snSend(reply)
+		if err := h.snSend(reply); err != nil {
+			return err
+		}
+		for _, pkt := range h.pktBuffer {
+			if err := h.snSend(pkt); err != nil {
+				return err
+			}
+		}
+		h.pktBuffer = nil
+		return nil
 	}
 
 	// The MQTT-SN specification does not explicitly forbid zero keepalive
